@@ -7,8 +7,8 @@ CONFIG = {
     "exhaustive": [
         "correspondence: EVERY string of up to 4 tokens (quick) / 5 tokens (thorough) over the 31-fragment alphabet "
         "(rgb( ) , space 1 25 superscript-two arabic-three fullwidth-three # a f color( on not link bold [ ] / \\ = ESC m ; ]8; BEL "
-        "wide zero-width newline tab) fed to Color.parse, Style.parse, markup.render, AnsiDecoder.decode, Text "
-        "(Style.normalize / get_style: 3 resp. 4; Text: 4), and every string of up to 5 / 6 tokens over a 11-13 fragment core alphabet "
+        "wide zero-width newline tab) fed to Color.parse, Style.parse, markup.render, AnsiDecoder.decode "
+        "(Text, Style.normalize, get_style: 3 resp. 4), and every string of up to 5 / 6 tokens over a 11-13 fragment core alphabet "
         "per entry point; every str.isdigit character inside an SGR sequence and an rgb() component; "
         "Console.print with and without markup on every string of up to 2 / 3 tokens",
         "SGR sequences ESC [ p1;...;pk m for EVERY parameter list of up to 5 (quick) / 6 (thorough) parameters over {empty, 0, 1, 2, 5, 38, 48, 255, 300, x, superscript-two}: every truncation of 38;2;r;g;b and 38;5;n with and without a trailing semicolon; digit runs of 4300 / 4301 / 5000 ASCII and non-ASCII digits (CPython int() conversion limit) in every numeric position of rgb(), color(), style words, markup tags, SGR parameters and printed markup, one position at a time",
